@@ -11,16 +11,23 @@ from . import traj
 from .common import Disagreement, drive, ROOT
 
 PROP_MODULE = 'PbVerif.Props.C09'
+GEN_TABLES = ('WeightExprs',)      # a rule of _weighting.py that leaves the translated fragment is reported
 RULE = ('cases = (rule, residual vector kind in {mixed, all positive, all negative, ties at zero, < 2 negatives}, size 3..2000, '
         'magnitude 1e-100..1e100, scheme parameters, iteration 1..200) compared with the Lean Float instance of the rule, plus direct '
         'checks of finiteness / range / monotonicity on the real output; hosts: trajectory replay of (max_iter, tol) grids through the '
         'Lean loop skeleton on noisy and on noise-free data (documented early exit) and the pairing weights = rule(returned baseline) at '
-        'exhaustion; non-trivial = at least two negative residuals; distinct by canonical tuple')
+        'exhaustion; non-trivial = at least two negative residuals; distinct by canonical tuple; source expressions: every weight '
+        'expression translated from the text of _weighting.py on this run (Gen/WeightExprs) is evaluated by the driver (c09.wexpr) on the '
+        'same residual vectors, with the step statistics computed by the real helpers, and must reproduce the real function to a few ulp')
 ASSUMPTIONS = [
     'libm exp / scipy expit / erf: the Lean Float instance uses the C library exp; agreement is demanded to 1e-9 absolute on weights in [0, 1]',
     'step statistics (mean, ddof-1 std, sum of the negative residuals) are computed by naive Float summation in the model (numpy uses pairwise summation)',
     'asls/psalsa/derpsalsa are antitone only for p <= 1 - p (proved necessary); the quantile weight is positive and bounded, not confined to [0, 1] (documented formula)',
     'brpls monotonicity is not proved (no erf in Mathlib); its range is proved for any erf value in [-1, 1]',
+    'Route A (gen_<rule>_eq_model, src_*): the translator harness/pbv/translate_weights.py reads the final weight expression of ten rules '
+    '(brpls excepted) from the source text on every run; it is trusted only as far as c09.wexpr shows the translated expression computes what '
+    'the real function computes; the early-exit guard, _safe_std and the reductions (mean, sum, max over the negative residuals) are named '
+    'inputs of the expression, not part of it',
 ]
 
 
@@ -184,6 +191,119 @@ def rule_level(ctx, rng, dis):
                                     f'{float(np.max(np.abs(w - wm))):.3g}', {'rule': 'brpls', 'beta': beta}, True))
 
 
+def wexpr_level(ctx, rng, dis):
+    """the tie of the TRANSLATOR (Route A): the expression parsed from the source text of each rule, evaluated by the driver in Float
+    at the statistics computed by the real helpers, must reproduce what the real function returns on the same residuals.  The
+    translated expression performs the source's operations in the source's order, so the agreement demanded is a few ulp (libm exp /
+    expit / pow differences only), far tighter than the effect of any edited constant."""
+    from pybaselines import _weighting as W
+    from pybaselines.utils import _MIN_FLOAT as MINF
+    from . import translate_weights as TW
+    try:
+        res = TW.translate_source(open(TW.source_path()).read())
+    except OSError:
+        return
+    logmax = np.log(np.finfo(float).max)
+    Mclip = logmax - np.spacing(logmax)
+    # boundary-heavy: exactly two negative residuals (the guard's edge), two EQUAL negatives (std = 0 -> _MIN_FLOAT), ties at zero
+    kinds = ['mixed', 'all_negative', 'ties_zero', 'two_negative', 'equal_negatives', 'all_positive']
+    lines, meta = [], []
+    reps = 40 if ctx.thorough else 8
+    for trial in range(reps):
+        for kind in kinds:
+            n = int(rng.choice([3, 4, 7, 20, 101] + ([2000] if ctx.thorough else [300])))
+            scale = 10.0 ** int(rng.integers(-100, 101)) if rng.random() < 0.4 else 10.0 ** int(rng.integers(-3, 4))
+            if kind in ('two_negative', 'equal_negatives'):
+                y, b = residuals(rng, n, 'all_positive', scale)
+                idx = rng.choice(n, 2, replace=False)
+                if kind == 'two_negative':
+                    b[idx] = y[idx] + (np.abs(rng.normal(0, 1, 2)) + 1e-3) * scale
+                else:
+                    y[idx] = 0.0
+                    b[idx] = float(rng.choice([0.5, 1.0, 3.0])) * scale
+            else:
+                y, b = residuals(rng, n, kind, scale)
+            r = y - b
+            neg = r[r < 0]
+            it = int(rng.choice([1, 2, 3, 10, 49, 50, 51, 99, 100, 101, 200]))
+            p = float(rng.choice([0.001, 0.01, 0.1, 0.5]))
+            k = float(rng.choice([0.5, 2.0, 10.0])) * scale
+            coef = float(rng.choice([0.5, 2.0]))
+            q = float(rng.choice([0.05, 0.5, 0.9]))
+            eps = float(rng.choice([0.0, (np.abs(b).max() * 1e-6) ** 2]))
+            pw = np.round(rng.uniform(0, 1, n) * 16) / 16
+            with np.errstate(all='ignore'):
+                raw = W._airpls(y, b, it, False)
+                # the named inputs of the translated expressions: arguments, machine constants, and the step statistics computed by
+                # the real helpers on the negative residuals (the expression takes them as inputs, exactly as the hand model does)
+                scal = {'p': p, 'k': k, 'asymmetric_coef': coef, 'quantile': q, 'eps': eps, 'minFloat': MINF, 'clipMax': Mclip}
+                if neg.size >= 2:
+                    scal.update(std=W._safe_std(neg, ddof=1), meanNeg=np.mean(neg), sumNeg=neg.sum(), maxNegW=raw[0][r < 0].max())
+                real = {
+                    'asls': lambda: (W._asls(y, b, p), False),
+                    'airpls': lambda: (raw[0], raw[2]),
+                    'airplsNorm': lambda: (lambda o: (o[0], o[2]))(W._airpls(y, b, it, True)),
+                    'arpls': lambda: W._arpls(y, b),
+                    'drpls': lambda: W._drpls(y, b, it),
+                    'iarpls': lambda: W._iarpls(y, b, it),
+                    'aspls': lambda: (lambda o: (o[0], o[2]))(W._aspls(y, b, coef)),
+                    'psalsa': lambda: (W._psalsa(y, b, p, k, n), False),
+                    'derpsalsa': lambda: (W._derpsalsa(y, b, p, k, n, pw), False),
+                    'lsrpls': lambda: W._lsrpls(y, b, it),
+                    'quantile': lambda: (W._quantile(y, b, q, eps), False),
+                }
+                for nm, fn in real.items():
+                    e = res.get(nm, (None,))[0]
+                    if e is None:
+                        continue            # reported through GEN_TABLES
+                    w, ex = fn()
+                    if ex:
+                        ctx.count('wexpr:early-exit(not an expression case)')
+                        continue
+                    vs, ns = TW.variables(e)
+                    missing = [v for v in vs if v not in scal and v != 'partial_weights'] + [v for v in ns if v != 'iteration']
+                    if missing:
+                        dis.append(Disagreement('c09.wexpr', f'wexpr:{nm}:inputs', f'the expression translated from _{nm} reads inputs the harness '
+                                                f'cannot supply: {missing}', {'rule': nm}, False))
+                        continue
+                    sc = ';'.join(f'{v}={bits(scal[v])}' for v in sorted(vs) if v != 'partial_weights') or '-'
+                    nn = ';'.join(f'{v}={it}' for v in sorted(ns)) or '-'
+                    pv = f'partial_weights={bl(pw)}' if 'partial_weights' in vs else '-'
+                    lines.append(f'c09.wexpr {nm} {sc} {nn} {pv} {bl(r)}')
+                    prm = dict(iteration=it, p=p, k=k, asymmetric_coef=coef, quantile=q, eps=eps)
+                    meta.append((nm, kind, n, scale, prm, np.asarray(w, dtype=float), y, b))
+                    ctx.case(('wexpr', nm, kind, n, scale, it, p, k, coef, q, eps, trial), nontrivial=True,
+                             sample={'source expression': nm, 'residuals': kind, 'N': n, 'scale': scale, 'iteration': it}
+                             if kind == 'mixed' and nm == 'drpls' and trial == 0 else None)
+                    ctx.count('wexpr:' + nm)
+    outs = drive(lines, timeout=1200)
+    ctx.traces += len(lines)
+    worst = {}
+    for ln, o, (nm, kind, n, scale, prm, w, y, b) in zip(lines, outs, meta):
+        rep = {'rule': nm, 'kind': kind, 'y': y.tolist(), 'baseline': b.tolist(), 'params': prm, 'line': ln if n <= 20 else None}
+        if o == 'bad-op':
+            dis.append(Disagreement('c09.wexpr', f'wexpr:{nm}:bad-op', f'driver refused c09.wexpr {nm} (an input of the translated expression was '
+                                    f'not supplied, or the rule is not in Gen.Src.table)', rep, False))
+            continue
+        wm = dec(o)
+        with np.errstate(all='ignore'):
+            # weights in [0, 1]: absolute; airpls raw / quantile (unbounded): relative.  Both sides perform the same operations in the same
+            # order; what differs is libm (exp, pow) against numpy / scipy (exp, expit, integer power), a few ulp of the ARGUMENT's image
+            if nm in ('airpls', 'quantile'):
+                err = np.abs(w - wm) / np.maximum(np.abs(w), np.finfo(float).tiny)
+            else:
+                err = np.abs(w - wm)
+            err = np.where((w == wm) | (np.isnan(w) & np.isnan(wm)), 0.0, err)
+        e = float(np.max(err)) if err.size else 0.0
+        worst[nm] = max(worst.get(nm, 0.0), e)
+        tol = 1e-12 if nm in ('airpls', 'airplsNorm') else 1e-13
+        if wm.shape != w.shape or not (e <= tol):
+            dis.append(Disagreement('c09.wexpr', f'wexpr:{nm}:value', f'the expression translated from the source of _{nm.replace("Norm", "")} '
+                                    f'({kind} residuals, N={n}, scale={scale:g}, {prm}) differs from what the function returns by {e:.3g} '
+                                    f'(tolerance {tol:g})', rep, False))
+    ctx.notes.append('wexpr worst deviation per rule: ' + ', '.join(f'{k} {v:.2g}' for k, v in sorted(worst.items())))
+
+
 NO_RULE_PER_STEP = {'mixture_model'}      # its iterations are expectation-maximisation steps, not rule calls
 
 
@@ -293,6 +413,7 @@ def correspond(ctx):
         if r:
             dis.append(Disagreement('c09.corpus', d['signature'], f'corpus {os.path.basename(f)}: {r}', d['replay'], True))
     rule_level(ctx, rng, dis)
+    wexpr_level(ctx, rng, dis)
     host_level(ctx, rng, dis)
     return dis
 
